@@ -322,7 +322,7 @@ fn case<G: CurveTag>(bytes: &[u8], col: &mut Collector) -> Result<(), Failure> {
     let cut = bytes.len().min(40);
     let mut chi = Choices::new(&bytes[..cut]);
     let mut ch = Choices::new(&bytes[cut..]);
-    let cfg = GenCfg { max_ops1: 12, max_closures: 2, max_ops2: 7, max_commits: 4, big_gates: 0 , max_terms: 4, wide: false};
+    let cfg = GenCfg { max_ops1: 12, max_closures: 2, max_ops2: 7, max_commits: 4, big_gates: 0, max_terms: 4, wide: false };
     let mut prog = gen_program(&mut ch, G::CURVE, &cfg);
     prog.cap_v = Cap::Big;
     let p = run_prover::<G>(&prog, &ProveOpts::default());
